@@ -93,6 +93,35 @@ extern "C" __attribute__((noinline)) void h_arith() {
   ArithUint256 a = toA(x); a *= m;
   verif_check(same(a, rmul32(x, m)), 1);
   verif_cover(1);
+#elif defined(MODE_DIVMUL)
+  // /= and *=(ArithUint256) on a grid (their control flow depends on every quotient bit, so the operands are case-split): divisors and
+  // multipliers of EVERY bit length 1..256 in three shapes (2^k-1 pattern, 2^(k-1), 2^(k-1)+1), three dividend patterns; the quotient is
+  // compared with an independent restoring division and q*b + r == a, r < b is checked with the reference multiplier
+  unsigned k = verif_choice(1, 256);
+  uint32_t shape = verif_choice(0, 2), pat = verif_choice(0, 2);
+  R256 b = rzero();
+  if (shape == 0) { for (unsigned i = 0; i < k; i++) b.b[i / 8] |= (uint8_t)(1u << (i % 8)); }                 // 2^k - 1
+  else { b.b[(k - 1) / 8] |= (uint8_t)(1u << ((k - 1) % 8)); if (shape == 2) b.b[0] |= 1; }                      // 2^(k-1), 2^(k-1)+1
+  R256 a;
+  for (int i = 0; i < 32; i++) a.b[i] = pat == 0 ? 0xff : (pat == 1 ? (uint8_t)(0xa5 ^ (i * 29)) : (uint8_t)(i == 31 ? 0x80 : (i * 7 + 1)));
+  // reference: restoring division, bit by bit
+  R256 q = rzero(), r = rzero();
+  for (int i = 255; i >= 0; i--) {
+    r = rshl(r, 1); r.b[0] |= (uint8_t)rbit(a, i);
+    if (rcmp(r, b) >= 0) { r = rsub(r, b); q.b[i / 8] |= (uint8_t)(1u << (i % 8)); }
+  }
+  ArithUint256 x = toA(a); x /= toA(b);
+  verif_check(same(x, q), 1);                                           // quotient
+  // reference multiplication mod 2^256 (schoolbook on bytes)
+  auto rmul = [](const R256& u, const R256& v) { R256 o = rzero(); for (int i = 0; i < 32; i++) { unsigned c = 0; for (int j = 0; i + j < 32; j++) { unsigned t = o.b[i + j] + (unsigned)u.b[i] * v.b[j] + c; o.b[i + j] = (uint8_t)t; c = t >> 8; } } return o; };
+  R256 qb = rmul(q, b);
+  verif_check(rcmp(radd(qb, r), a) == 0 && rcmp(r, b) < 0, 2);          // the reference itself is a division
+  ArithUint256 y = toA(q); y *= toA(b);
+  verif_check(same(y, qb), 3);                                          // *=(ArithUint256) == schoolbook product
+  ArithUint256 z = toA(a); z *= toA(b);
+  verif_check(same(z, rmul(a, b)), 4);                                  // ... also when the product wraps 2^256
+  if (k >= 57 && k <= 64) verif_cover(2);
+  verif_cover(1);
 #elif defined(MODE_BITS)
   R256 x = rsym();
   verif_check(toA(x).bits() == rbits(x), 1);
@@ -135,6 +164,21 @@ extern "C" __attribute__((noinline)) void h_arith() {
     verif_check(ParseHex(s) == v, 6);
   }
   verif_cover(1);
+#elif defined(MODE_TEXTDEC59)
+  // every text of length 0..TLEN over ALL 256 character values: DecodeBase59 never reads outside its tables (engine obligation),
+  // accepts exactly the texts made of alphabet characters ('0'-'9' with '0' as the last digit, letters without I, O, l), and
+  // encoding the decoded bytes gives the text back
+  uint32_t len = verif_choice(0, TLEN);
+  std::string s(len, 'x');
+  for (uint32_t i = 0; i < len; i++) s[i] = (char)nondet_u8();
+  auto& out = *new std::vector<uint8_t>();
+  ValidationState st;
+  bool ok = DecodeBase59(s, out, st);
+  auto inAlpha = [](unsigned char c) { return (c >= '0' && c <= '9') || (c >= 'A' && c <= 'Z' && c != 'I' && c != 'O') || (c >= 'a' && c <= 'z' && c != 'l'); };
+  bool wf = true;
+  for (uint32_t i = 0; i < len; i++) wf = wf && inAlpha((unsigned char)s[i]);
+  verif_check(ok == wf, 1);
+  if (ok) { verif_check(EncodeBase59(out) == s, 2); verif_cover(1); } else verif_cover(2);
 #elif defined(MODE_TEXTDEC)
   // every text of length 0..TLEN over ALL 256 character values: DecodeBase58 accepts exactly the well-formed texts
   // (optional surrounding white space, alphabet characters only) and decoding then re-encoding gives the text back
